@@ -194,6 +194,7 @@ func init() {
 		wireCppBeName(wc, r, "C01", []string{"enc"}, 1<<kBasic|1<<kLength|1<<kCheckSum)
 		wirePaddingSiblings(wc, r, "C01")
 		wirePaddingOutcomes(wc, r, "C01")
+		defaultPaddingPredicate(w, r, "C01")
 		wirePaddingPrecedence(wc, r, "C01")
 		wireOneByteEndian(w, wc, r, "C01")
 		wireListEndianUnconditional(w, wc, r, "C01")
@@ -233,6 +234,7 @@ func init() {
 		wireListEndianUnconditional(w, wc, r, "C03")
 		wirePaddingSiblings(wc, r, "C03")
 		wirePaddingOutcomes(wc, r, "C03")
+		defaultPaddingPredicate(w, r, "C03")
 		wirePaddingPrecedence(wc, r, "C03")
 		wirePadSpellings(w, wc, r)
 		wireTables(w, r, "C03")
